@@ -484,32 +484,27 @@ Proof.
   intros c w Hthr H. destruct (is_cached_total Q m ev c w Hthr) as [b Hb]. congruence.
 Qed.
 
-Definition needs_v (c0 : cache) (c : cache) (a : addr) : option bool := tm_is_cached Q m ev (view m c0 c a) a.
-
-Lemma single_v_spec : forall c0, step_spec Q m ev sc addr (create_single_v Q m ev sc c0) cover1 (needs_v c0).
+Lemma single_v_spec : forall c0, step_spec Q m ev sc addr (create_single_v Q m ev sc c0) cover1 (tm_is_cached Q m ev).
 Proof.
-  intros c0 s a. unfold create_single_v, needs_v. cbv zeta.
-  destruct (tm_is_cached Q m ev (view m c0 (s_cache s) a) a) as [[|]|] eqn:Hc.
+  intros c0 s a. unfold create_single_v. cbv zeta.
+  destruct (tm_is_cached Q m ev (s_cache s) a) as [[|]|] eqn:Hc.
   - left. split; reflexivity.
   - rewrite (is_stale_of_cached_false _ _ Hc). unfold next_outcome.
     unfold new_content. destruct (sc (length (s_log s))) as [cacheable auth v| | |] eqn:Ho.
     + destruct auth.
-      * destruct (get (view m c0 (s_cache s) a) a).
+      * destruct (get (s_cache s) a).
         -- right. split; [reflexivity|]. split; [reflexivity|]. left. reflexivity.
         -- right. split; [reflexivity|]. split; [reflexivity|].
            destruct cacheable; [right; split; [eexists; eexists; reflexivity | reflexivity] | left; reflexivity].
       * right. split; [reflexivity|]. split; [reflexivity|].
         destruct cacheable; [right; split; [eexists; eexists; reflexivity | reflexivity] | left; reflexivity].
-    + destruct (get (view m c0 (s_cache s) a) a).
+    + destruct (get (s_cache s) a).
       * right. split; [reflexivity|]. split; [reflexivity|]. left. reflexivity.
       * right. split; [reflexivity|]. split; [reflexivity|]. split; [reflexivity | left; reflexivity].
     + right. split; [reflexivity|]. split; [reflexivity|]. left. reflexivity.
     + right. split; [reflexivity|]. split; [reflexivity|]. split; [reflexivity | right; reflexivity].
   - left. split; reflexivity.
 Qed.
-
-Lemma view_current : forall c0 c a, recheck_uses_loaded m = false -> view m c0 c a = c.
-Proof. intros c0 c a H. unfold view. rewrite H. reflexivity. Qed.
 
 Definition coverm (mt : list addr) : list addr := mt.
 
@@ -811,10 +806,10 @@ Proof.
   - rewrite (loop_cache_unchanged Q m ev sc _ _ cover1 _ (single_v_spec Q m ev sc (s_cache s0))); [exact H1 | intros k au v _; apply Hno].
 Qed.
 
-(* the re-check under the lock observes the refreshed tile (single tile path, back-ends whose re-check reads the
-   current time stamp): a requested tile that the other request left accepted is not fetched by the waiting request *)
+(* the re-check under the lock observes the refreshed tile (single tile path, every back-end): a requested tile that
+   the other request left accepted is not fetched by the waiting request *)
 Lemma recheck_observes_refresh : forall s0 coords other a,
-  m_meta m = false -> recheck_uses_loaded m = false ->
+  m_meta m = false ->
   let s1 := fst (load_tile_coords Q m ev sc members s0 other) in
   let s' := fst (load_after Q m ev sc members s0 coords other) in
   cachedb (s_cache s1) a = Some true ->
@@ -822,11 +817,11 @@ Lemma recheck_observes_refresh : forall s0 coords other a,
   exists new, s_log s' = new ++ s_log s1 /\ (forall entry, In entry new -> ~ In a entry) /\
               cachedb (s_cache s') a = Some true.
 Proof.
-  intros s0 coords other a Hm Hre s1 s' Hc. subst s'.
+  intros s0 coords other a Hm s1 s' Hc. subst s'.
   destruct (load_after_final s0 coords other) as [->|[u [us [_ ->]]]]; [left; reflexivity|]. right.
   cbv zeta. rewrite Hm. fold s1.
   apply (loop_fresh_untouched Q m ev sc _ _ cover1 _ (single_v_spec Q m ev sc (s_cache s0)) a); [|exact Hc].
-  intros c w [<-|[]] Hcw. unfold needs_v. rewrite (view_current m _ _ _ Hre). exact Hcw.
+  intros c w [<-|[]] Hcw. exact Hcw.
 Qed.
 
 (* single-tile path, upstream down: every requested tile that exists is served with its old content *)
@@ -1434,20 +1429,13 @@ Example ex_race_file :
   (mkSt ((Ex.a0, mkEntry 0 4000000040) :: Ex.c) [[Ex.a0]], Served [Some 0]).
 Proof. vm_compute. reflexivity. Qed.
 
-(* finding C13-sqlite-recheck: with a back-end whose re-check uses the time stamp loaded before the wait, the tile
-   that request A left accepted is fetched again by the waiting request *)
-Lemma recheck_uses_loaded_refetches_refuted :
-  exists Q m ev sc members s0 coords other a,
-    m_meta m = false /\ recheck_uses_loaded m = true /\
-    let s1 := fst (load_tile_coords Q m ev sc members s0 other) in
-    let s' := fst (load_after Q m ev sc members s0 coords other) in
-    tm_is_cached Q m ev (s_cache s1) a = Some true /\
-    s_log s' = [a] :: s_log s1.
-Proof.
-  exists Ex.q, (mkMgr (Some (mkRconf None false 0 0 0 0 8)) None false true 0 false), Ex.ev, Ex.all_ok, Ex.single,
-         (mkSt [(Ex.a0, mkEntry 100 4000000028)] []), [Ex.a0], [Ex.a0], Ex.a0.
-  vm_compute. repeat split; reflexivity.
-Qed.
+(* mbtiles / sqlite (after the repair of F60): the waiting request re-checks with the stored time stamp - one upstream
+   request in total - and serves the image it had loaded before the wait *)
+Example ex_race_sqlite :
+  let m := mkMgr (Some (mkRconf None false 0 0 0 0 8)) None false true 0 false in
+  load_after Ex.q m Ex.ev Ex.all_ok Ex.single (mkSt [(Ex.a0, mkEntry 100 4000000028)] []) [Ex.a0] [Ex.a0] =
+  (mkSt [(Ex.a0, mkEntry 0 4000000040); (Ex.a0, mkEntry 100 4000000028)] [[Ex.a0]], Served [Some 100]).
+Proof. vm_compute. reflexivity. Qed.
 
 (* seed tasks that share a TileManager: each walk runs under the threshold of its own task, whatever an earlier
    task left in _expire_timestamp (the cache's own refresh_before, if any, still wins) *)
